@@ -263,6 +263,7 @@ def gen_acc_t(rng, n):
     yield from gen_acc(rng, max(n, 50))
 
 
+@H.limited(15)
 def run_acc(inp):
     rep = H.build_rep(inp["spec"])
     A = aut_from_json(inp["aut"])
@@ -318,6 +319,7 @@ def gen_free(rng, n):
         yield {"spec": spec, "L": L, "maxlen": rng.random() < 0.6, "with_words": rng.random() < 0.8}
 
 
+@H.limited(15)
 def run_free(inp):
     rep = H.build_rep(inp["spec"])
     gens = list(rep.asym_gens())
@@ -386,6 +388,7 @@ def gen_paths(rng, n):
         yield inp
 
 
+@H.limited(15)
 def run_paths(inp):
     rep = H.build_rep(inp["spec"])
     A = aut_from_json(inp["aut"])
@@ -445,6 +448,7 @@ def gen_single(rng, n):
                "end": rng.randrange(k) if rng.random() < 0.4 else None}
 
 
+@H.limited(15)
 def run_single(inp):
     rep = H.build_rep(inp["spec"])
     A = aut_from_json(inp["aut"])
@@ -466,6 +470,7 @@ def judge_single(inp, obs, lr):
 # =====================================================================================
 # oracle: freely reduced words, each exactly once
 # =====================================================================================
+@H.limited(15)
 def run_freeo(inp):
     rep = H.build_rep(inp["spec"])
     mats, ws = rep.freely_reduced_elements(inp["L"], maxlen=inp["maxlen"], with_words=True)
@@ -503,6 +508,7 @@ def gen_memo(rng, n):
                "calls": [dict(c, keep=True) for c in rand_calls(rng, j, same_options=same, ncalls=rng.randint(2, 4))]}
 
 
+@H.limited(15)
 def run_memo(inp):
     rep = H.build_rep(inp["spec"])
     A = aut_from_json(inp["aut"])
